@@ -32,13 +32,16 @@ EXPLANATION = (
     'set_from_configure_command returned normally and its result decides the save; R4 --wipe copies cmd_line.txt and *.ini and '
     'reads the command line before deleting, restores in a finally inside the temporary directory scope; R4b in read_cmd_line_file the mapping assigned to options.cmd_line_options is merged from the recorded table and the current options with the current ones last (highest priority); R5a-c the option file '
     'handed to OptionInterpreter.process for a subproject is its recorded file / depends on per-subproject data, and the same '
-    'subproject key is used for the interpreter, the store update and the recorded hash. '
+    'subproject key is used for the interpreter, the store update and the recorded hash; R5a also: a path of the mconf reload loop with a usable recorded file that skips the reload has decided an equality test of the recorded hash (with what it is compared is not read; no other test - timestamp, size - may skip it). '
+    'R2d also reads the loop that re-points the children of a replaced declaration as a table over every field of the child it tests: a child of the replaced object is re-linked whatever its other state (yielding or detached). '
+    'Normal forms: a functools.singledispatch generic function with module-level @register(Class) implementations is read as the isinstance chain it dispatches like (most-derived class first; closed world over mesonbuild); a method called on `self.accessor(k)` / on a parameter or loop variable whose annotation names classes of the module is analysed in place when all those classes inherit one definition. '
     'R2d the object installed for a redeclared option gets the parent link (parent/yielding) that add_project_option gives a new one; R5d every normal path of _load_option_file calls update_project_options for self.subproject, with no declarations when there is no option file. R6 in Environment every option writer fed from self.options (the initial sources) is unreachable when first_invocation is false. R4c every [properties] key read_cmd_line_file restores into options.K is recorded by write_cmd_line_file exactly when options.K is set (all worlds); R4d in MesonApp._generate the options object handed to Interpreter is dominated by read_cmd_line_file on it (or every caller merges into self.options). R7 in the interpreter (func_project and the helpers it is split into) initialize_from_top_level_project_call is reached only on paths where first_invocation is known true, initialize_from_subproject_call(S, ..) only where first_invocation is known true or S is known to be missing from coredata.initialized_subprojects, and every normal path through it adds the same S to that set (gate key = initialised subproject = recorded key), so default_options are applied once per (sub)project. Does NOT decide: the precedence between the sources of one initial value (machine file < command line for prefix in first_handle_prefix) and the order in which the options of one command line are applied (buildtype before debug/optimization in parse_cmd_line_options) - C07 owns both; who else may remove entries of initialized_subprojects outside the interpreter; what set_option/set_value do with a value (e.g. whether set_option detaches a yielding option only when the value changes - C07 owns set_option); agreement with a reference model over command histories, nor what set_user_option/set_value accept.')
 ASSUMPTIONS = [
     'OptionStore.set_option(key, v) validates and stores v on the object currently in self.options[key]',
     'UserOption.set_value raises MesonException (and keeps the previous value) for an invalid value',
     'coredata.save returns the coredata.dat path after copying the previous file to <path>.prev',
     'the persistent writers of setup/configure are dump_coredata/coredata.save, build.save, write_cmd_line_file, update_cmd_line_file',
+    'return/parameter annotations naming option classes (AnyOptionType, MutableKeyedOptionDictType) state which objects arrive (used only to resolve a method called on such an object)',
 ]
 TECHNIQUE = ('decision tables by path enumeration over canonical atoms + world enumeration, row effects compared symbolically '
              '(normalised statement shape, after copy propagation by reaching definitions along the path); typestate of '
@@ -1604,7 +1607,9 @@ def r1b(ctx: RuleCtx) -> None:
     tab = _ptable(body, _r1_eff, name=qn + ':loop')
     rec = "CFG['options']"
     sem = {Atom('is', ('VAL', 'None')): 'unset', Atom('truth', ('VAL',)): 'truthy',
-           Atom('in', ('str(KEY)', rec)): 'recorded'}
+           Atom('in', ('str(KEY)', rec)): 'recorded',
+           # configparser: SectionProxy.__contains__/__setitem__ ARE parser.has_option / parser.set (library identities)
+           Atom('truth', ("CFG.has_option('options', str(KEY))",)): 'recorded'}
 
     def ref(w: T.Dict[str, bool]) -> T.Optional[str]:
         if w['unset'] and w['truthy']:
@@ -1619,8 +1624,12 @@ def r1b(ctx: RuleCtx) -> None:
             effs.extend(x.strip() for x in e.split('; '))
         acts = []
         for e in effs:
-            if e == f'SET {rec}[str(KEY)] := str(VAL)':
+            if e in (f'SET {rec}[str(KEY)] := str(VAL)', "CALL CFG.set('options', str(KEY), str(VAL))"):
                 acts.append('record')
+            elif e.startswith("CALL CFG.set('options', str(KEY), "):
+                acts.append(f'records `{e[len("CALL CFG.set(") + 21:-1]}` instead of str(value)')
+            elif e == "CALL CFG.remove_option('options', str(KEY))":
+                acts.append('erase-if-recorded')
             elif e.startswith(f'SET {rec}[str(KEY)] := '):
                 acts.append(f'records `{e.split(" := ", 1)[1]}` instead of str(value)')
             elif e == f'DEL {rec}[str(KEY)]':
@@ -1642,7 +1651,8 @@ def r1b(ctx: RuleCtx) -> None:
     # the updated table is written back after the loop
     cfg = CFG(fn)
     it = [n for n in cfg.nodes if n.kind == 'iter' and n.ast is loop]
-    readers = ('read', 'read_file', 'read_string', 'has_section', 'has_option', 'get', 'items', 'keys', 'values', 'sections', 'options')
+    readers = ('read', 'read_file', 'read_string', 'has_section', 'has_option', 'get', 'items', 'keys', 'values', 'sections', 'options',
+               'set', 'remove_option', 'add_section', 'read_dict')     # in-memory updates of the table are not the write-back
     wr = cfg.nodes_with_call(lambda c: call_method(c) not in readers and (cfgs[0] in {a.id for a in c.args if isinstance(a, ast.Name)}
                                                                           or (isinstance(c.func, ast.Attribute) and norm(c.func.value) == cfgs[0])))
     wr = [n for n in wr if n.ast is not loop and it and cfg.can_reach(it[0], n)]
@@ -1823,25 +1833,34 @@ def _repoint_loops(block: T.List[ast.stmt]) -> None:
             wrong: T.List[str] = []
             for r in tab.rows:
                 is_old = same = None
+                other_state = False
                 for a, v in r.conds.items():
                     if a.kind == 'is' and set(a.args) == {'X.parent', old_e}:
                         is_old = v
                     elif a.kind == 'is' and set(a.args) == {'type(X)', f'type({new_e})'}:
                         same = v
+                    elif a.kind == 'truth' and len(a.args) == 1 and a.args[0].startswith('X.') and a.args[0][2:].isidentifier() and a.args[0] != 'X.parent':
+                        # another field of the child (`X.yielding` ...): one more dimension of the worlds; the reference does
+                        # not depend on it - every child of the replaced object is re-linked, whatever else is true of it
+                        other_state = True
                     else:
                         read = False
                 effs = sorted(e for ee in r.effects for e in ee.split('; '))
-                if r.outcome[0] not in ('fall', 'continue') or is_old is None or \
+                if r.outcome[0] not in ('fall', 'continue') or (is_old is None and not other_state) or \
                         any(not (e.startswith('SET X.parent := ') or e.startswith('SET X.yielding := ')) for e in effs):
                     read = False
-                elif is_old is False:
-                    want = []
-                elif same is False:
-                    want = sorted(['SET X.parent := None', 'SET X.yielding := False'])
-                else:
-                    want = [f'SET X.parent := {new_e}']
-                if read and effs != want:
-                    wrong.append(f'{r!r}')
+                    continue
+                # the row fires in every world that completes its conditions: it must be right in each of them
+                for io in ((True, False) if is_old is None else (is_old,)):
+                    if io is False:
+                        want = []
+                    elif same is False:
+                        want = sorted(['SET X.parent := None', 'SET X.yielding := False'])
+                    else:
+                        want = [f'SET X.parent := {new_e}']
+                    if read and effs != want:
+                        wrong.append(f'{r!r}' + (' (a child of the replaced object in this state is not re-linked)' if is_old is None else ''))
+                        break
             if read and tab.rows:
                 args: T.List[ast.expr] = [ast.parse(old_e, mode='eval').body, ast.parse(new_e, mode='eval').body]
                 if wrong:
@@ -3532,10 +3551,26 @@ def r5a(ctx: RuleCtx) -> None:
     rec = [rp for rp in walked if _recorded(rp)]
     ctx.floor(f'{qn}: paths with a usable recorded option file', len(rec), 1)
     bad: T.Dict[T.Tuple[str, str], ast.AST] = {}
-    n = 0
+    n = nskip = nskipbad = 0
     for rp in rec:
         n += 1
         probs = _r5_key_checks(rp, 'SUB')
+        if not rp.process:
+            # the reload is skipped: only because the content hash of the recorded file equals the recorded hash ITEM[1]
+            hs = [(a, v) for a, v in rp.conds if 'ITEM[1]' in repr(a)]
+            # (what the recorded hash is compared with - a digest object, a helper - is not read: only that equality with it decides)
+            good = [a for a, v in hs if a.kind == 'cmp' and a.args[0] == 'eq' and v is True and 'ITEM[1]' in a.args[1:]]
+            if not hs:
+                nskipbad += 1
+                skip = next((a for a, v in reversed(rp.conds) if a != _NOT_NONE and not ('exists' in repr(a) and a.kind == 'truth')), None)
+                probs.append(('reload skipped without comparing the recorded hash',
+                              f'subproject with a usable recorded option file: the path `{short(rp.text, 140)}` skips the reload without comparing the '
+                              f'content hash of the file with the recorded one (deciding test: `{skip!r}`): an edit of the option file is not noticed by '
+                              '`meson configure`', fn))
+            elif not good:
+                raise Undecided(f'{qn}: reload skipped on a test of the recorded hash that is not an equality `ITEM[1] == ...`: {[repr(a) for a, _ in hs]}')
+            else:
+                nskip += 1
         for c, recv, arg in rp.process:
             if norm(arg) != 'ITEM[0]':
                 probs.append((f'process({norm(arg)})', f'subproject with recorded option file `ITEM[0]`: `{norm(arg)}` is processed instead', c))
@@ -3547,6 +3582,7 @@ def r5a(ctx: RuleCtx) -> None:
         ctx.violation(mod, qn, c, m, node)
     sites = {id(c) for rp in rec for c, _, _ in rp.process}
     ctx.floor(f'{qn}: process() sites reading the recorded file', len(sites), 1)
+    ctx.floor(f'{qn}: recorded-file paths that skip the reload because the content hash equals the recorded hash (or reported)', nskip + nskipbad, 1)
 
 
 def _r5b_analyse(qn: str, other: T.List[_R5Path]) -> T.Tuple[T.List[str], T.List[T.Tuple[str, str, ast.AST]]]:
